@@ -690,16 +690,7 @@ func (fr *Frame) atCallGhost(calleeShort string, pn []string, args []Value, st *
 				r.addOblig(&Oblig{Name: fr.oblName("assert", fmt.Sprintf("%s#%d.%s", calleeShort, k, cl.Label)), Kind: "assert", Func: r.eng.fnName(fr.fn), Label: cl.Label, Tags: cl.Tags, Text: cl.Text, Guard: st.guard, Goal: g})
 			}
 			r.assume(st, g)
-			if b, ok := cl.E.(*EBin); ok && b.Op == "==" {
-				if sel, ok := b.X.(*ESel); ok {
-					env := &evalEnv{fr: fr, st: st, old: fr.entry}
-					base, err1 := fr.evalExpr(sel.X, env)
-					rhs, err2 := fr.evalExpr(b.Y, env)
-					if err1 == nil && err2 == nil {
-						fr.rebind(st, base, sel.Name, rhs)
-					}
-				}
-			}
+			fr.rebindCut(cl.E, st)
 		}
 	}
 	return k, nil
